@@ -1235,6 +1235,9 @@ def run(ctx, model_ok=True):
     base = prg.integers(0, 4, size=shp) / 8.0
     base[:, 1, :, :] += 0.5
     check_classical(ctx, rand_prob(prg, shp[2], shp[3], "01"), base, 1, "frac", "pool-tail")
+    # a second, different game of the same shape through the pool branch in the same process: state kept between calls (a worker pool
+    # or a cache that still holds the previous game's tensor) shows
+    check_classical(ctx, rand_prob(prg, shp[2], shp[3], "01"), prg.integers(0, 8, size=shp) / 8.0, 1, "frac", "pool-second")
     if not quick:
         # multiprocessing-pool branch of classical_value (> 1000 iterations), after a possible repair as well
         rng = ctx.rng
